@@ -9,28 +9,86 @@ structure SubInv (chain : List Nat) (fin : Nat) (s : Sub) : Prop where
   /-- every stored block is tracked, or was delivered as finalized (and is then on the chain for good) -/
   covered : ∀ b ∈ s.store, b ∈ s.tracked ∨ (Canon chain b ∧ b.1 ≤ fin)
   trackedStored : ∀ b ∈ s.tracked, b ∈ s.store
-  contiguous : s.store.map (·.1) = List.range' 1 s.store.length
+  sortedS : s.store.Pairwise (fun x y => x.1 < y.1)
+  pos : ∀ b ∈ s.store, 1 ≤ b.1
   sortedT : s.tracked.Pairwise (fun x y => x.1 < y.1)
 
-theorem lastNum_contig (l : List Blk) (h : l.map (·.1) = List.range' 1 l.length) : lastNum l = l.length := by
+theorem le_lastNum_of_sorted : ∀ (l : List Blk), l.Pairwise (fun x y => x.1 < y.1) → ∀ x ∈ l, x.1 ≤ lastNum l := by
+  intro l hs x hx
   unfold lastNum
   cases hg : l.getLast? with
   | none => have : l = [] := by simpa using hg
-            subst this; rfl
+            subst this; simp at hx
   | some b =>
     obtain ⟨ys, hys⟩ := List.getLast?_eq_some_iff.mp hg
     subst hys
-    simp only [List.map_append, List.map_cons, List.map_nil, List.length_append, List.length_cons, List.length_nil] at h ⊢
-    rw [List.range'_concat] at h
-    have := (List.append_inj' h (by simp)).2
-    simp at this
-    omega
+    simp only
+    rcases List.mem_append.mp hx with h | h
+    · have := (List.pairwise_append.mp hs).2.2 x h b (by simp)
+      omega
+    · rw [List.mem_singleton.mp h]; exact Nat.le_refl _
 
-theorem mem_num_le (l : List Blk) (h : l.map (·.1) = List.range' 1 l.length) (b : Blk) (hb : b ∈ l) :
-    1 ≤ b.1 ∧ b.1 ≤ l.length := by
-  have : b.1 ∈ l.map (·.1) := List.mem_map_of_mem hb
-  rw [h, List.mem_range'_1] at this
-  omega
+/-! ### the downloader's search for the next block with events -/
+
+theorem findFrom_some : ∀ (l : List Nat) (n : Nat) (b : Blk), findFrom l n = some b →
+    n ≤ b.1 ∧ l[b.1 - n]? = some b.2 ∧ b.2 ≠ 0 ∧ ∀ m, n ≤ m → m < b.1 → l[m - n]? = some 0 := by
+  intro l
+  induction l with
+  | nil => intro n b h; simp [findFrom] at h
+  | cons v rest ih =>
+    intro n b h
+    unfold findFrom at h
+    by_cases hv : v = 0
+    · rw [if_pos hv] at h
+      obtain ⟨h1, h2, h3, h4⟩ := ih (n + 1) b h
+      refine ⟨by omega, ?_, h3, ?_⟩
+      · have : b.1 - n = (b.1 - (n + 1)) + 1 := by omega
+        rw [this, List.getElem?_cons_succ]; exact h2
+      · intro m hm1 hm2
+        by_cases hmn : m = n
+        · subst hmn; simp [hv]
+        · have : m - n = (m - (n + 1)) + 1 := by omega
+          rw [this, List.getElem?_cons_succ]
+          exact h4 m (by omega) hm2
+    · rw [if_neg hv] at h
+      simp only [Option.some.injEq] at h
+      subst h
+      refine ⟨Nat.le_refl _, by simp, hv, fun m h1 h2 => by simp at h2; omega⟩
+
+theorem findFrom_none : ∀ (l : List Nat) (n : Nat), findFrom l n = none → ∀ v ∈ l, v = 0 := by
+  intro l
+  induction l with
+  | nil => intro n _ v hv; simp at hv
+  | cons x rest ih =>
+    intro n h v hv
+    unfold findFrom at h
+    by_cases hx : x = 0
+    · rw [if_pos hx] at h
+      rcases List.mem_cons.mp hv with e | e
+      · rw [e]; exact hx
+      · exact ih (n + 1) h v e
+    · rw [if_neg hx] at h; cases h
+
+theorem canon_eq_drop (chain : List Nat) (n m : Nat) (hn : 1 ≤ n) (hm : n ≤ m) :
+    canon chain m = (chain.drop (n - 1))[m - n]? := by
+  unfold canon
+  rw [if_neg (by omega), List.getElem?_drop]
+  congr 1; omega
+
+theorem nextDeliv_some (chain : List Nat) (n : Nat) (b : Blk) (hn : 1 ≤ n) (h : nextDeliv chain n = some b) :
+    n ≤ b.1 ∧ Canon chain b ∧ b.2 ≠ 0 ∧ ∀ m, n ≤ m → m < b.1 → canon chain m = some 0 := by
+  unfold nextDeliv at h
+  obtain ⟨h1, h2, h3, h4⟩ := findFrom_some _ _ _ h
+  refine ⟨h1, ?_, h3, ?_⟩
+  · unfold Canon; rw [canon_eq_drop chain n b.1 hn h1]; exact h2
+  · intro m hm1 hm2; rw [canon_eq_drop chain n m hn hm1]; exact h4 m hm1 hm2
+
+theorem nextDeliv_none (chain : List Nat) (n : Nat) (hn : 1 ≤ n) (h : nextDeliv chain n = none) :
+    ∀ m v, n ≤ m → canon chain m = some v → v = 0 := by
+  intro m v hm hc
+  unfold nextDeliv at h
+  rw [canon_eq_drop chain n m hn hm] at hc
+  exact findFrom_none _ _ h v (List.mem_of_getElem? hc)
 
 theorem canon_append (chain : List Nat) (v n : Nat) (h : n ≤ chain.length) : canon (chain ++ [v]) n = canon chain n := by
   unfold canon
@@ -102,43 +160,48 @@ theorem trackAdd_sorted (tracked : List Blk) (b : Blk) (hs : tracked.Pairwise (f
 theorem stepOnce_inv (chain : List Nat) (fin : Nat) (s s' : Sub) (hi : SubInv chain fin s)
     (h : stepOnce chain fin s = some s') : SubInv chain fin s' := by
   unfold stepOnce at h
-  simp only at h
-  have hlast := lastNum_contig s.store hi.contiguous
-  cases hc : canon chain (lastNum s.store + 1) with
+  cases hc : nextDeliv chain (lastNum s.store + 1) with
   | none => rw [hc] at h; cases h
-  | some v =>
+  | some b =>
     rw [hc] at h
     simp only [Option.some.injEq] at h
     subst h
-    rw [hlast] at hc ⊢
-    refine ⟨?_, ?_, ?_, ?_⟩
-    · intro b hb
-      simp only at hb ⊢
-      rcases List.mem_append.mp hb with hb | hb
-      · rcases hi.covered b hb with h1 | h1
-        · by_cases hf : s.store.length + 1 ≤ fin
+    obtain ⟨hge, hcan, _, _⟩ := nextDeliv_some chain _ b (by omega) hc
+    have hlt : ∀ x ∈ s.store, x.1 < b.1 := fun x hx => by
+      have := le_lastNum_of_sorted s.store hi.sortedS x hx; omega
+    refine ⟨?_, ?_, ?_, ?_, ?_⟩
+    · intro x hx
+      simp only at hx ⊢
+      rcases List.mem_append.mp hx with hx | hx
+      · rcases hi.covered x hx with h1 | h1
+        · by_cases hf : b.1 ≤ fin
           · rw [if_pos hf]; exact Or.inl h1
           · rw [if_neg hf]
-            have := (mem_num_le s.store hi.contiguous b hb).2
-            exact Or.inl (mem_trackAdd_of_ne _ _ _ h1 (by simp; omega))
+            have := hlt x hx
+            exact Or.inl (mem_trackAdd_of_ne _ _ _ h1 (by omega))
         · exact Or.inr h1
-      · rw [List.mem_singleton.mp hb]
-        by_cases hf : s.store.length + 1 ≤ fin
-        · rw [if_pos hf]; exact Or.inr ⟨hc, hf⟩
+      · rw [List.mem_singleton.mp hx]
+        by_cases hf : b.1 ≤ fin
+        · rw [if_pos hf]; exact Or.inr ⟨hcan, hf⟩
         · rw [if_neg hf]; exact Or.inl (self_mem_trackAdd _ _)
-    · intro b hb
-      simp only at hb ⊢
-      by_cases hf : s.store.length + 1 ≤ fin
-      · rw [if_pos hf] at hb; exact List.mem_append_left _ (hi.trackedStored b hb)
-      · rw [if_neg hf] at hb
-        rcases mem_trackAdd _ _ _ hb with e | hb
+    · intro x hx
+      simp only at hx ⊢
+      by_cases hf : b.1 ≤ fin
+      · rw [if_pos hf] at hx; exact List.mem_append_left _ (hi.trackedStored x hx)
+      · rw [if_neg hf] at hx
+        rcases mem_trackAdd _ _ _ hx with e | hx
         · rw [e]; simp
-        · exact List.mem_append_left _ (hi.trackedStored b hb)
-    · simp only [List.map_append, List.map_cons, List.map_nil, List.length_append, List.length_cons, List.length_nil]
-      rw [hi.contiguous, List.range'_concat]
-      simp [Nat.add_comm]
+        · exact List.mem_append_left _ (hi.trackedStored x hx)
     · simp only
-      by_cases hf : s.store.length + 1 ≤ fin
+      rw [List.pairwise_append]
+      exact ⟨hi.sortedS, by simp, fun x hx y hy => by rw [List.mem_singleton.mp hy]; exact hlt x hx⟩
+    · intro x hx
+      simp only at hx
+      rcases List.mem_append.mp hx with hx | hx
+      · exact hi.pos x hx
+      · rw [List.mem_singleton.mp hx]; omega
+    · simp only
+      by_cases hf : b.1 ≤ fin
       · rw [if_pos hf]; exact hi.sortedT
       · rw [if_neg hf]; exact trackAdd_sorted _ _ hi.sortedT
 
@@ -157,28 +220,6 @@ theorem stepN_inv (chain : List Nat) (fin : Nat) : ∀ (k : Nat) (s : Sub), SubI
 
 /-! ### one detection pass -/
 
-theorem filter_lt_contig (f : Blk → Nat) (k : Nat) : ∀ (l : List Blk) (a : Nat), l.map f = List.range' a l.length →
-    (l.filter (fun x => decide (f x < k))).map f = List.range' a (min l.length (k - a)) := by
-  intro l
-  induction l with
-  | nil => intro a _; simp
-  | cons x xs ih =>
-    intro a h
-    simp only [List.map_cons, List.length_cons, List.range'_succ, List.cons.injEq] at h
-    obtain ⟨hx, hxs⟩ := h
-    have ih' := ih (a + 1) hxs
-    rw [List.filter_cons]
-    by_cases hk : f x < k
-    · simp only [hk, decide_true, if_true, List.map_cons, List.length_cons]
-      rw [ih', hx]
-      have : min (xs.length + 1) (k - a) = min xs.length (k - (a + 1)) + 1 := by omega
-      rw [this, List.range'_succ]
-    · simp only [hk, decide_false, Bool.false_eq_true, if_false, List.length_cons]
-      rw [ih']
-      have e1 : min xs.length (k - (a + 1)) = 0 := by omega
-      have e2 : min (xs.length + 1) (k - a) = 0 := by omega
-      rw [e1, e2]; simp
-
 /-- the facts the loop carries: `pre` has been checked and found on the chain; only finalized checked entries have been
     dropped from the tracked list; the store is untouched -/
 structure LoopSt (chain : List Nat) (fin : Nat) (s0 : Sub) (pre : List Blk) (s : Sub) : Prop where
@@ -189,7 +230,7 @@ structure LoopSt (chain : List Nat) (fin : Nat) (s0 : Sub) (pre : List Blk) (s :
 
 theorem loopSt_inv (chain : List Nat) (fin : Nat) (s0 s : Sub) (pre : List Blk) (hi0 : SubInv chain fin s0)
     (h : LoopSt chain fin s0 pre s) : SubInv chain fin s := by
-  refine ⟨?_, ?_, by rw [h.store]; exact hi0.contiguous, hi0.sortedT.sublist h.sub⟩
+  refine ⟨?_, ?_, by rw [h.store]; exact hi0.sortedS, by rw [h.store]; exact hi0.pos, hi0.sortedT.sublist h.sub⟩
   · intro b hb
     rw [h.store] at hb
     rcases hi0.covered b hb with h1 | h1
@@ -289,7 +330,7 @@ theorem detectLoop_spec (chain : List Nat) (fin : Nat) (s0 : Sub) (hi0 : SubInv 
           have := List.mem_filter.mp hb
           rw [hl.store] at this
           exact ⟨this.1, by simpa using this.2⟩
-        refine ⟨⟨?_, ?_, ?_, ?_⟩, ?_, ?_, ?_⟩
+        refine ⟨⟨?_, ?_, ?_, ?_, ?_⟩, ?_, ?_, ?_⟩
         · intro b hb
           obtain ⟨hb0, hlt⟩ := hstore b hb
           rcases hi0.covered b hb0 with h1 | h1
@@ -304,10 +345,10 @@ theorem detectLoop_spec (chain : List Nat) (fin : Nat) (s0 : Sub) (hi0 : SubInv 
           rw [hl.store]
           exact hi0.trackedStored b (hl.sub.subset this.1)
         · simp only
-          have h1 := filter_lt_contig (·.1) t.1 s.store 1 (by rw [hl.store]; exact hi0.contiguous)
-          have h2 := congrArg List.length h1
-          simp only [List.length_map, List.length_range'] at h2
-          rw [h1, h2]
+          rw [hl.store]
+          exact hi0.sortedS.sublist List.filter_sublist
+        · intro b hb
+          exact hi0.pos b (hstore b hb).1
         · exact (hi0.sortedT.sublist hl.sub).sublist List.filter_sublist
         · intro _ b hb
           obtain ⟨hb0, hlt⟩ := hstore b hb
